@@ -221,9 +221,11 @@ func (s *Server) HandleValidate(w http.ResponseWriter, r *http.Request) {
 	logger.V(1).Info("received request", "UID", review.Request.UID, "kind", review.Request.Kind, "resource", review.Request.Resource)
 
 	attributes := api.RequestAttributes(review.Request, codecs.UniversalDeserializer())
-	response := s.delegate.Validate(ctx, attributes)
+	// The response returned by Validate may be shared between requests and must not be mutated:
+	// set the UID on a copy.
+	response := *s.delegate.Validate(ctx, attributes)
 	response.UID = review.Request.UID // Response UID must match request UID
-	review.Response = response
+	review.Response = &response
 	writeResponse(w, review)
 }
 
